@@ -221,6 +221,114 @@ def run_lexgrid(n):
             'note': 'concrete grid (auxiliary)'}
 
 
+FILE_LINES = ['(a b)', '; c', '(x ; d', ')', '"s', 't"', '|q', 'r|', 'y ;e',
+              '', '( )']
+FILE_EOLS = ['\n', '\r\n', '\r']
+
+
+def fileread_one(text):
+    """What cli.ddsmt_main hands to the strategies for an input *file* with
+    the given bytes (the file is read in text mode: CR and CRLF line ends
+    arrive at the parser as LF)."""
+    import logging
+    import os
+    import shutil
+    import tempfile
+    from ddsmt import (checker, cli, options, strategy_ddmin,
+                       strategy_hierarchical, tmpfiles, progress)
+    from harness import strat_common as SC
+    work = tempfile.mkdtemp(prefix='verif-c08-')
+    seen = []
+    saved = []
+
+    def patch(mod, name, val):
+        saved.append((mod, name, getattr(mod, name)))
+        setattr(mod, name, val)
+
+    try:
+        inp = os.path.join(work, 'in.smt2')
+        with open(inp, 'wb') as f:
+            f.write(text.encode('utf8'))
+        cmd = os.path.join(work, 'solver')
+        with open(cmd, 'w') as f:
+            f.write('#!/bin/sh\n')
+        os.chmod(cmd, 0o755)
+        ns = SC._namespace('hybrid', 1, 'core', os.path.join(work, 'out.smt2'))
+        ns.infile = inp
+        ns.cmd = [cmd]
+        ns.cmd_cc = None
+        ns.parser_test = False
+
+        def capture(exprs):
+            seen.append([to_list(x) for x in exprs])
+            return exprs, 0
+
+        patch(strategy_ddmin, 'reduce', capture)
+        patch(strategy_hierarchical, 'reduce', capture)
+        patch(checker, 'do_golden_runs', lambda: None)
+        patch(tmpfiles, 'copy_binaries', lambda: None)
+        if not hasattr(logging, 'chat'):
+            setattr(options, '__PARSED_ARGS', ns)
+            cli.setup_logging()
+        patch(cli, 'setup_logging', lambda: None)
+        logging.getLogger().setLevel(logging.CRITICAL)
+        cli.ddsmt_main()
+    finally:
+        for mod, name, val in reversed(saved):
+            setattr(mod, name, val)
+        shutil.rmtree(work, ignore_errors=True)
+    return seen[0] if seen else None
+
+
+def run_fileread(tier):
+    """Auxiliary (concrete): files of three lines with LF, CRLF and bare CR
+    line ends go through cli.ddsmt_main's own reading of the input file; the
+    tree handed to the strategies is the reference reading of the text with
+    its line ends normalised."""
+    import itertools
+    import time
+    t0 = time.time()
+    cnt = ok = 0
+    bad = None
+    nl = 3 if tier == 'quick' else 4
+    for lines in itertools.product(FILE_LINES, repeat=nl):
+        canon = ''.join(l + '\n' for l in lines)
+        ref = R.read(canon)
+        if isinstance(ref, str):
+            continue
+        for eols in itertools.product(FILE_EOLS, repeat=nl):
+            if tier == 'quick' and len(set(eols)) > 1 and cnt % 3:
+                cnt += 1
+                continue
+            cnt += 1
+            text = ''.join(l + e for l, e in zip(lines, eols))
+            ref = R.read(text.replace('\r\n', '\n').replace('\r', '\n'))
+            if isinstance(ref, str):
+                continue
+            try:
+                got = fileread_one(text)
+            except Exception as e:
+                got = f'{type(e).__name__}: {e}'
+            ok += 1
+            if got is None or isinstance(got, str) or \
+                    R.norm_tree(got) != R.norm_tree(ref):
+                if bad is None:
+                    bad = ({'text': text},
+                           f'input file {text!r}: ddsmt_main works on '
+                           f'{got!r}, the file reads as {ref!r}')
+        if bad:
+            break
+    return {'status': 'VIOLATED' if bad else 'CONFIRMED',
+            'cex': bad[0] if bad else None,
+            'exc': {'type': 'Violation', 'msg': bad[1]} if bad else None,
+            'paths': cnt, 'paths_ok': ok,
+            'samples': [{'text': '(a b)\r; c\r(x ; d\r)\r'}],
+            'solver_checks': 0, 'solver_seconds': 0.0,
+            'wall_s': round(time.time() - t0, 2),
+            'note': 'concrete grid through the real file reading of '
+                    'cli.ddsmt_main (auxiliary)'}
+
+
 def _lex_balanced_possible(kinds):
     depth = 0
     for k in kinds:
@@ -306,6 +414,10 @@ def partitions(tier):
                 'per_path_timeout': 30,
                 'bounds': {'len': L, 'first_classes': list(pins)},
             })
+    parts.append({'name': 'fileread', 'kind': 'native',
+                  'run': (lambda: run_fileread(tier)), 'budget_s': 600,
+                  'bounds': {'lines': 3 if tier == 'quick' else 4,
+                             'line_ends': ['LF', 'CRLF', 'CR']}})
     parts.append({'name': 'lexgrid', 'kind': 'native',
                   'run': (lambda: run_lexgrid(bounds(tier)['lexemes'])),
                   'budget_s': 600,
@@ -315,6 +427,17 @@ def partitions(tier):
 
 
 def replay(part, cex):
+    if part == 'fileread':
+        try:
+            got = fileread_one(cex['text'])
+        except Exception as e:
+            return f'{type(e).__name__}: {e}'
+        t = cex['text'].replace('\r\n', '\n').replace('\r', '\n')
+        ref = R.read(t)
+        if got is None or R.norm_tree(got) != R.norm_tree(ref):
+            return (f'input file {cex["text"]!r}: ddsmt_main works on '
+                    f'{got!r}, the file reads as {ref!r}')
+        return None
     if part == 'lexgrid':
         try:
             return check_and_describe(cex['text'])
